@@ -125,8 +125,8 @@ static int raw_case(Src &s, Report &r) {
 	unsigned room = 132 + 720 - off;
 	unsigned spl = s.chance(1, 3) ? room : 1 + s.pick(room);
 	sp.offset = (int) off; sp.bytes_per_line = (int) spl;
-	sp.start[0] = 7 + (int) s.pick(10); sp.count[0] = 1 + (int) s.pick((uint32_t) (23 - sp.start[0] + 1));
-	sp.start[1] = 320 + (int) s.pick(10); sp.count[1] = 1 + (int) s.pick((uint32_t) (335 - sp.start[1] + 1));
+	sp.start[0] = 6 + (int) s.pick(11); sp.count[0] = 1 + (int) s.pick((uint32_t) (23 - sp.start[0] + 1));	// (lines 6 and 319 can be sampled but not carried: a raw line there makes the frame unacceptable)
+	sp.start[1] = 319 + (int) s.pick(11); sp.count[1] = 1 + (int) s.pick((uint32_t) (335 - sp.start[1] + 1));
 	sp.interlaced = s.chance(1, 4);
 	if (sp.interlaced) { int c = std::min(sp.count[0], sp.count[1]); sp.count[0] = sp.count[1] = c; }
 	unsigned rows = (unsigned) (sp.count[0] + sp.count[1]), seed = s.u8();
@@ -148,6 +148,14 @@ static int raw_case(Src &s, Report &r) {
 	if (!m) return 2;
 	int64_t pts = s.u32();
 	vbi_bool ok = vbi_dvb_mux_feed(m, sl.data(), (unsigned) sl.size(), ~0u, raw.data(), &sp, pts);
+	if (!ok) {	// a rejected frame leaves the multiplexer usable: an ordinary frame that follows is accepted and produces a packet
+		size_t before = out.bytes.size();
+		vbi_sliced t; memset(&t, 0, sizeof t); t.id = VBI_SLICED_TELETEXT_B_625; t.line = 8; for (int i = 0; i < 42; ++i) t.data[i] = (uint8_t) (i * 3 + seed);
+		vbi_bool ok2 = vbi_dvb_mux_feed(m, &t, 1, ~0u, nullptr, nullptr, pts + 3600);
+		if (before == 0 && (!ok2 || out.bytes.size() == before)) { vbi_dvb_mux_delete(m); return r.fail("C06:mux-unusable-after-rejected-frame", "a frame with raw lines was rejected (raw lines on line %u ..., window %d+%d / %d+%d); the ordinary frame fed next was %s", sl.front().line, sp.start[0], sp.count[0], sp.start[1], sp.count[1], ok2 ? "accepted without output" : "rejected too"); }
+		out.bytes.resize(before);
+		r.cls("raw:frame-after-rejected-frame");
+	}
 	vbi_dvb_mux_delete(m);
 	r.say("raw case: offset %u spl %u start %d+%d count %d+%d %s, %zu lines -> %s, %zu bytes\n", off, spl, sp.start[0], sp.start[1], sp.count[0], sp.count[1], sp.interlaced ? "interlaced" : "sequential", sl.size(), ok ? "accepted" : "rejected", out.bytes.size());
 	r.cls(ok ? "raw:accepted" : "raw:rejected");
